@@ -376,7 +376,7 @@ partial def blk (j : Json) : Except String Blk := do
       let ca ← c.getArr?
       return ((← src ca[0]!), (← blks ca[1]!))
     return .cond cs (← optBlks a[2]!)
-  | "unless" => return .unless (← src a[1]!) (← blks a[2]!)
+  | "unless" => return .unless_ (← src a[1]!) (← blks a[2]!)
   | "call" => return .call (← src a[1]!)
   | "in" =>
     let o := a[2]!
@@ -461,11 +461,11 @@ def opRender (j : Json) : Except String Json := do
     let a ← d.getArr?
     return ((← a[0]!.getNat?), (← txt a[1]!))
   let guardOn := (j.getObjValAs? Bool "guard").toOption.getD false
-  let faultAt := (j.getObjValAs? Nat "faultAt").toOption
+  let faults := ((j.getObjValAs? (Array Nat) "faults").toOption.getD #[]).toList
   let faultCls := ((j.getObjValAs? String "faultCls").toOption.getD "ValueError").toList
   let utf8 := (j.getObjValAs? Bool "utf8").toOption.getD true
   let env : Render.Env :=
-    { templates := tmpls, classes := classes, guardOn := guardOn, denied := denied, faultAt := faultAt,
+    { templates := tmpls, classes := classes, guardOn := guardOn, denied := denied, faults := faults,
       faultExc := ⟨faultCls, "fault".toList⟩, utf8 := utf8 }
   let main ← getNat j "main"
   let clients ← (← (← j.getObjVal? "clients").getArr?).toList.mapM val
